@@ -8,14 +8,16 @@ import (
 	"go/ast"
 	"go/token"
 	"go/types"
+	"strings"
 )
 
 type Fact struct {
 	L, R *Term // L <= R
 	Src  string
+	Cond string // non-empty: the fact holds only when this branch condition holds (kept across an if-join)
 }
 
-func (f Fact) equal(g Fact) bool { return f.L.Equal(g.L) && f.R.Equal(g.R) }
+func (f Fact) equal(g Fact) bool { return f.L.Equal(g.L) && f.R.Equal(g.R) && f.Cond == g.Cond }
 func (f Fact) String() string    { return f.L.String() + " <= " + f.R.String() }
 
 // Need is one inequality A <= B that must hold at a site.
@@ -209,13 +211,78 @@ func (in *Interp) assumeNil(st *State, x *ast.BinaryExpr, truth bool) {
 	}
 }
 
-// Prove decides A <= B from the facts (sound, incomplete).
+// atomMax records declared upper bounds of atoms (by key): bytes and 16/32-bit
+// reads of the input, integer fields by their Go type, masked values.
+var atomMax = map[string]int64{}
+
+func setAtomMax(t *Term, max int64) *Term {
+	if a := t.SingleAtom(); a != nil && max >= 0 {
+		if old, ok := atomMax[a.Key()]; !ok || max < old {
+			atomMax[a.Key()] = max
+		}
+	}
+	return t
+}
+
+// UpperBound returns a constant c with t <= c when every atom with a positive
+// coefficient has a declared maximum and every atom with a negative
+// coefficient is non-negative.
+func (t *Term) UpperBound() (int64, bool) {
+	ub := t.C
+	for k, v := range t.K {
+		a := t.Atoms[k]
+		switch {
+		case v > 0:
+			m, ok := atomMax[k]
+			if !ok {
+				if a.Kind == "ite" {
+					u0, ok0 := a.Sub[0].UpperBound()
+					u1, ok1 := a.Sub[1].UpperBound()
+					if ok0 && ok1 {
+						if u1 > u0 {
+							u0 = u1
+						}
+						ub += v * u0
+						continue
+					}
+				}
+				return 0, false
+			}
+			ub += v * m
+		case v < 0:
+			if !nonNegAtom(a) {
+				return 0, false
+			}
+		}
+	}
+	return ub, true
+}
+
+// Prove decides A <= B from the facts (sound, incomplete): sign rule, declared
+// ranges of atoms, at most three recorded facts, case split on branch values.
 func Prove(a, b *Term, facts []Fact) (bool, []Fact) {
-	d := b.Sub(a)
+	return proveD(b.Sub(a), facts, "", 0)
+}
+
+func proveD(d *Term, facts []Fact, branch string, depth int) (bool, []Fact) {
 	if d.NonNeg() {
 		return true, nil
 	}
-	// depth-limited search subtracting (R-L) >= 0 of facts
+	// usable facts: unconditional ones and those of the branch under consideration
+	var fs []Fact
+	for _, f := range facts {
+		if f.Cond == "" || (branch != "" && strings.Contains(branch, "\x00"+f.Cond+"\x00")) {
+			fs = append(fs, f)
+		}
+	}
+	// declared ranges of the atoms that pull the difference down
+	for k, v := range d.K {
+		if v < 0 {
+			if m, ok := atomMax[k]; ok {
+				fs = append(fs, Fact{L: FromAtom(d.Atoms[k]), R: Const(m), Src: "declared range"})
+			}
+		}
+	}
 	var used []Fact
 	var rec func(d *Term, depth int, start int) bool
 	rec = func(d *Term, depth int, start int) bool {
@@ -225,8 +292,8 @@ func Prove(a, b *Term, facts []Fact) (bool, []Fact) {
 		if depth == 0 {
 			return false
 		}
-		for i := 0; i < len(facts); i++ {
-			f := facts[i]
+		for i := 0; i < len(fs); i++ {
+			f := fs[i]
 			g := f.R.Sub(f.L)
 			if !sharesAtom(d, g) {
 				continue
@@ -245,6 +312,28 @@ func Prove(a, b *Term, facts []Fact) (bool, []Fact) {
 	}
 	if rec(d, 3, 0) {
 		return true, append([]Fact(nil), used...)
+	}
+	// case split on a branch value: ite(c ? x : y) is x when c holds, y otherwise;
+	// facts recorded on one arm of that branch become usable in its case
+	if depth < 3 {
+		for _, k := range d.keys() {
+			at := d.Atoms[k]
+			if at.Kind != "ite" {
+				continue
+			}
+			rest := d.AddScaled(FromAtom(at), -d.K[k])
+			d1 := rest.AddScaled(at.Sub[0], d.K[k])
+			d0 := rest.AddScaled(at.Sub[1], d.K[k])
+			ok1, u1 := proveD(d1, facts, branch+"\x00"+at.Cond+"\x00", depth+1)
+			if !ok1 {
+				return false, nil
+			}
+			ok0, u0 := proveD(d0, facts, branch+"\x00"+negCond(at.Cond)+"\x00", depth+1)
+			if !ok0 {
+				return false, nil
+			}
+			return true, append(u1, u0...)
+		}
 	}
 	return false, nil
 }
